@@ -306,6 +306,7 @@ fn sync_case(cs: u64, args: &Args, m16: &mut Monitor, m17: &mut Monitor, m01: &m
         max_missing = max_missing.max(missing0);
         overlap_kind = format!("A has {} / B has {} / missing {}", a.set.count(), b.set.count(), missing0);
         let mut guard = 0;
+        let mut prev_sample: Option<Vec<aranya_runtime::Address>> = None;
         loop {
             let missing_before = b.set.iter().filter(|&v| !a.set.get(v)).count();
             if missing_before == 0 {
@@ -371,8 +372,18 @@ fn sync_case(cs: u64, args: &Args, m16: &mut Monitor, m17: &mut Monitor, m01: &m
                 // One request/one response: "progress" is what the requester learns about the
                 // responder (its peer cache), not necessarily a new command. Counted, bounded above.
                 obs.count("one_response_exchanges_without_new_commands", 1);
+                // Requester and responder are deterministic: an exchange that brought nothing new
+                // and whose sample equals the previous exchange's sample (same peer caches) will
+                // repeat forever. Report the livelock now instead of running to the session bound.
+                if !fresh_caches && !out.sample.is_empty() && prev_sample.as_ref() == Some(&out.sample) {
+                    let sig = if req_heads > 100 { "repeated-sessions-never-deliver-everything:requester-holds-more-than-100-heads" } else { "repeated-sessions-do-not-deliver-everything-within-bound" };
+                    obs.fail("C16", sig, json!({"missing_initially": missing0, "still_missing": missing_after, "sessions": guard, "requester_heads": req_heads, "how": "two consecutive exchanges with the same sample delivered nothing new"}));
+                    break;
+                }
+                prev_sample = Some(out.sample.clone());
                 continue;
             }
+            prev_sample = None;
             if missing_after >= missing_before {
                 let window = beyond_window(&model, &out.sample, &b.set, &a.set);
                 let sig = if req_heads > 100 {
@@ -477,6 +488,10 @@ fn sync_case(cs: u64, args: &Args, m16: &mut Monitor, m17: &mut Monitor, m01: &m
             };
             if route == id {
                 m.violation(&f.sig, json!({"case": case, "finding": f.detail}));
+            } else if !args.wants(route) && args.wants(id) {
+                // the owning property's monitor is not part of this run: a session that breaks
+                // another sync property cannot count as held here either
+                m.violation(&format!("{route}:{}", f.sig), json!({"case": case, "finding": f.detail}));
             }
         }
         for (k, v) in &obs.counts {
@@ -747,7 +762,7 @@ fn main() {
     let want18 = args.wants("C18");
     let mut corpus: Vec<Vec<u8>> = vec![];
     if want_sync || want18 {
-        let n = if want_sync { args.n(400, 10_000) } else { 40 };
+        let n = if want_sync { args.n(1600, 40_000) } else { 40 };
         let parts = par_shards(cores().min(n as usize).max(1), |sh, tot| {
             let (mut a, mut b, mut c) = (m16.worker(), m17.worker(), m01.worker());
             let mut corp = vec![];
